@@ -16,6 +16,10 @@ CLAIMED = {
         text="generated allocation-heavy expressions (typed grammar over allocating primitives of the R7RS libraries and C-backed libraries srfi 1/69/95/151/18/160, chibi json) x forced-collection schedules (every allocation in a window, every n-th with phase, seeded random); oracles: ASan use-after-poison on swept objects, a shadow-mark audit before every collection (every reference reachable from the roots must designate a live object), heap checker after every sweep, and byte-identical output against the unforced run; thorough adds the shipped test corpus under every-n-th schedules; exploration only",
         note="trusted: the hook's poisoning/scribbling and checker (harness/verif_gc.h); programs are deterministic; the unforced run is the reference, so a defect that also corrupts the unforced run is C01's business",
         technique="property-based testing / fault injection: generated programs x injected collection schedules, differential + invariant oracle (ASan poisoning, shadow mark)"),
+    "C10": dict(
+        text="Hypothesis-generated allocation/drop histories (13 object kinds, sizes from 1 word to 8 MB, bursts, explicit collections) repeated for 8-16 rounds; after every collection the hook's checker validates exact tiling, address-ordered non-overlapping in-bounds free list, clear mark bits and that every slot of every live object designates an object start, and a shadow mark validates reachability before marking; leak oracle: heap total bounded by a multiple of peak live data and not growing between the middle and the last round; exploration only",
+        note="trusted: the checker in harness/verif_gc.h; leak-bound constants (16 x peak live + 8 x largest request + 4 MB; 1.5 x mid-run total) calibrated on the unchanged tree (worst observed total/peak-live ratio 37 for bursty histories with small live sets, covered by the additive terms)",
+        technique="stateful property-based testing (Hypothesis) with an invariant checker run at every collection and a boundedness oracle"),
 }
 
 NOT_YET = "check not built yet in this session (planned, see DESIGN.md section 4)"
